@@ -400,4 +400,116 @@ theorem foldl_stepF_inv (hist : List FwdOp) {s : FwdState} (hs : FwdInv s) {seen
       obtain ⟨h1, h2⟩ := stepF_inv hs hseen .clear (by intro n' c' bt' he; cases he)
       exact ih h1 h2 (by simpa [noRedefinition] using hno)
 
+
+/-! ### the concrete hint language: meaning respects `==` -/
+
+theorem litSubset_contains {a b : List LitV} (h : litSubset a b = true) {v : LitV} (hv : a.contains v = true) :
+    b.contains v = true := by
+  simp only [litSubset, List.all_eq_true] at h
+  have hm : v ∈ a := by simpa using hv
+  exact h v hm
+
+theorem satAtom_congr {a b : Atom} (h : atomEq a b = true) (x : PyObj) : satAtom a x = satAtom b x := by
+  cases a with
+  | cls n u =>
+    cases b with
+    | cls n' u' =>
+      have hu : u = u' := by simpa [atomEq] using h
+      subst hu
+      cases x <;> simp [satAtom]
+    | lit vs => simp [atomEq] at h
+    | noneType => simp [atomEq] at h
+  | lit vs =>
+    cases b with
+    | cls n u => simp [atomEq] at h
+    | lit vs' =>
+      simp only [atomEq, Bool.and_eq_true] at h
+      cases x with
+      | lit v =>
+        simp only [satAtom]
+        cases h1 : vs.contains v with
+        | true => exact (litSubset_contains h.1 h1).symm
+        | false =>
+          cases h2 : vs'.contains v with
+          | false => rfl
+          | true => rw [litSubset_contains h.2 h2] at h1; exact absurd h1 (by simp)
+      | inst c => rfl
+      | list xs => rfl
+      | none => rfl
+    | noneType => simp [atomEq] at h
+  | noneType =>
+    cases b with
+    | cls n u => simp [atomEq] at h
+    | lit vs => simp [atomEq] at h
+    | noneType => rfl
+
+theorem any_satAtom_of_cover {ms ms' : List Atom} {x : PyObj}
+    (hcover : ∀ a ∈ ms, ∃ b ∈ ms', satAtom a x = satAtom b x)
+    (h : ms.any (fun a => satAtom a x) = true) : ms'.any (fun a => satAtom a x) = true := by
+  obtain ⟨a, ha, hs⟩ := List.any_eq_true.mp h
+  obtain ⟨b, hb, he⟩ := hcover a ha
+  exact List.any_eq_true.mpr ⟨b, hb, by rw [← he]; exact hs⟩
+
+/-- **`KeyCongruent` for the `==` discipline, proved**: hints that `typing` calls equal accept the same objects. -/
+theorem sat_congr : ∀ (h h' : Hint), hintEq h h' = true → ∀ x, sat h x = sat h' x := by
+  intro h
+  induction h with
+  | atom a =>
+    intro h' he x
+    cases h' with
+    | atom b => exact satAtom_congr (by simpa [hintEq] using he) x
+    | union ms => simp [hintEq] at he
+    | list585 g => simp [hintEq] at he
+    | list484 g => simp [hintEq] at he
+  | union ms =>
+    intro h' he x
+    cases h' with
+    | atom b => simp [hintEq] at he
+    | union ms' =>
+      simp only [hintEq, Bool.and_eq_true, List.all_eq_true, List.any_eq_true] at he
+      obtain ⟨h1, h2⟩ := he
+      simp only [sat]
+      have c1 : ∀ a ∈ ms, ∃ b ∈ ms', satAtom a x = satAtom b x := by
+        intro a ha
+        obtain ⟨b, hb, hab⟩ := h1 a ha
+        exact ⟨b, hb, satAtom_congr hab x⟩
+      have c2 : ∀ b ∈ ms', ∃ a ∈ ms, satAtom b x = satAtom a x := by
+        intro b hb
+        obtain ⟨a, ha, hab⟩ := h2 b hb
+        exact ⟨a, ha, (satAtom_congr hab x).symm⟩
+      cases hl : ms.any (fun a => satAtom a x) with
+      | true => exact (any_satAtom_of_cover c1 hl).symm
+      | false =>
+        cases hr : ms'.any (fun a => satAtom a x) with
+        | false => rfl
+        | true => rw [any_satAtom_of_cover c2 hr] at hl; exact absurd hl (by simp)
+    | list585 g => simp [hintEq] at he
+    | list484 g => simp [hintEq] at he
+  | list585 g ih =>
+    intro h' he x
+    cases h' with
+    | atom b => simp [hintEq] at he
+    | union ms => simp [hintEq] at he
+    | list585 g' =>
+      have hg := ih g' (by simpa [hintEq] using he)
+      cases x with
+      | list xs => simp only [sat]; congr 1; funext y; exact hg y
+      | lit v => rfl
+      | inst c => rfl
+      | none => rfl
+    | list484 g' => simp [hintEq] at he
+  | list484 g ih =>
+    intro h' he x
+    cases h' with
+    | atom b => simp [hintEq] at he
+    | union ms => simp [hintEq] at he
+    | list585 g' => simp [hintEq] at he
+    | list484 g' =>
+      have hg := ih g' (by simpa [hintEq] using he)
+      cases x with
+      | list xs => simp only [sat]; congr 1; funext y; exact hg y
+      | lit v => rfl
+      | inst c => rfl
+      | none => rfl
+
 end BearVerif.Memo
